@@ -13,6 +13,7 @@ the stated aliasing assumptions:
        (representation-only subdivision) and (b) the cache JordanCurve.__lenght.
 """
 from verifkit.core import Outcome
+from verifkit.cache import cache_fields
 from verifkit.own import ownership, fmt
 
 ASSUMPTIONS = [
@@ -42,7 +43,6 @@ MUTATORS = {
 # curve.
 CONSTRUCTORS = {"from_segments", "from_vertices", "from_ctrlpoints", "from_full_curve", "polygon",
                 "regular_polygon", "triangle", "square", "circle"}
-CACHE_FIELDS = {"_JordanCurve__lenght"}
 SHAPE_LAYER = ("shape.", "jordancurve.", "plot.", "curve.PlanarCurve", "curve.Integrate", "curve.Intersection",
                "curve.Projection", "polygon.Point2D", "polygon.Box", "primitive.")
 
@@ -128,6 +128,8 @@ def r08_4(ctx):
     out = Outcome("R08.4", "non-mutating entry points write operand state only below JordanCurve.split or into the "
                            "length cache", floor=100)
     found = {}
+    CACHE_FIELDS = cache_fields(ctx)     # lazily computed fields; their coherence is R10.1's business
+    out.note(f"cache fields (derived from the lazy-fill pattern): {sorted(CACHE_FIELDS)}")
     for fn in entry_points(ctx):
         sm = O.S[fn.qname]
         bad = {}
